@@ -96,6 +96,7 @@ func runMux(period int, ops []muxOp) []muxCall {
 	w := &sinkWriter{failAt: -1}
 	m := astits.NewMuxer(context.Background(), w, astits.MuxerOptTablesRetransmitPeriod(period))
 	calls := make([]muxCall, 0, len(ops))
+	reused := map[uint16]*astits.PESOptionalHeader{}
 	for _, o := range ops {
 		before := len(w.accepted)
 		callsBefore := len(w.lens)
@@ -117,7 +118,25 @@ func runMux(period int, ops []muxOp) []muxCall {
 			case opTables:
 				c.n, err = m.WriteTables()
 			case opData:
-				c.n, err = m.WriteData(o.d)
+				// the caller re-uses one PESOptionalHeader struct per PID from call to call, as an application filling
+				// in a template would: same pointer, new content (the history's own structs stay untouched)
+				d := o.d
+				if d != nil && d.PES != nil && d.PES.Header != nil && d.PES.Header.OptionalHeader != nil {
+					ph := reused[d.PID]
+					if ph == nil {
+						ph = &astits.PESOptionalHeader{}
+						reused[d.PID] = ph
+					}
+					*ph = *d.PES.Header.OptionalHeader
+					h2 := *d.PES.Header
+					h2.OptionalHeader = ph
+					pes2 := *d.PES
+					pes2.Header = &h2
+					d2 := *d
+					d2.PES = &pes2
+					d = &d2
+				}
+				c.n, err = m.WriteData(d)
 			case opPacket:
 				c.n, err = m.WritePacket(o.p)
 			}
